@@ -1035,3 +1035,23 @@ V("C04", "flush_first_event_wins", "fire", "R04.*", (Z, "            event_dict 
 V("C03", "flush_single_pass", "fire", "R03.g", (Z, "        while self_._events:\n            event_dict = OrderedDict(", "        if self_._events:\n            event_dict = OrderedDict("))
 V("C08", "sync_refs_event_index_by_object", "fire", "R08.e", (Z, "            if not any((dep.owner is e.obj and dep.name == e.name) for dep in deps for e in events) and not is_async:", "            changed = {id(e.obj): e.name for e in events}\n            if not any(changed.get(id(dep.owner)) == dep.name for dep in deps) and not is_async:"))
 V("C08", "benign_sync_refs_any_reordered", "benign", None, (Z, "            if not any((dep.owner is e.obj and dep.name == e.name) for dep in deps for e in events) and not is_async:", "            if not is_async and not any((e.name == dep.name and e.obj is dep.owner) for e in events for dep in deps):"))
+
+V("C05", "event_reset_skipped_on_failure", "fire", "R05.g", (P, """        try:
+            if self._mode in ['set-reset', 'set']:
+                super().__set__(obj, val)
+        finally:
+            # Also reset when a watcher raised, otherwise the Event stays
+            # True and can never be triggered again.
+            if self._mode in ['set-reset', 'reset']:
+                self._reset_event(obj, val)
+""", """        if self._mode in ['set-reset', 'set']:
+            super().__set__(obj, val)
+        if self._mode in ['set-reset', 'reset']:
+            self._reset_event(obj, val)
+"""))
+V("C04", "trigger_merge_duplicates", "fire", "R04.i", (Z, """            self_._state_watchers += [
+                w for w in watchers
+                if not any(w is queued for queued in self_._state_watchers)
+            ]
+""", """            self_._state_watchers += watchers
+"""))
